@@ -6,7 +6,7 @@ import N0Verif.Val
   `deserialize_list_of_lists`, `deserialize_fixed_list`, `get_value_by_tag`,
   `serialize_dict`, `unescape`) — property C17.
 
-  The model follows the code **with the fix patches `fixes/C17-a … C17-e`, `C17-h`, `C17-i` applied**:
+  The model follows the code **with the fix patches `fixes/C17-a … C17-e`, `C17-h`, `C17-i`, `C17-j` applied**:
   * C17-a  the last item is trimmed according to its own escape run (`separated_items[-1]`, not the
            loop variable `item`, which is unbound when the `for` body never ran);
   * C17-b  `serialize_dict` writes reserved characters as `\xNN` with two hex digits;
@@ -17,7 +17,9 @@ import N0Verif.Val
            `\uNNNN` / `\UNNNNNNNN` instead of `\x` followed by more than two digits;
   * C17-h  `unescape` returns a value that is neither a string nor a list / dict (`None`, numbers)
            unchanged instead of calling `.copy()` on it;
-  * C17-i  `deserialize_list_of_lists` hands `parse_empty` to the inner `deserialize_list` too.
+  * C17-i  `deserialize_list_of_lists` hands `parse_empty` to the inner `deserialize_list` too;
+  * C17-j  `split_with_escape` splits the rest of the buffer once more before every join when `maxsplit` is
+           given, so that an escaped delimiter does not use up one of the `maxsplit` splits.
 
   Scope: the escape character is `None`/`''` (`none`) or one character; delimiters and equal tags
   are arbitrary strings (the empty one raises `ValueError`, as `str.split` does); `maxsplit` is a
@@ -84,10 +86,18 @@ inductive ForRes
   | exhausted (items : List Str)
   deriving Repr
 
+/-- `separated_items[-1:] = separated_items[-1].split(delimiter, 1)` (fix C17-j): the rest of the buffer —
+always the last item, still raw — is split once more -/
+def resplit (d : Str) (items : List Str) : PyM (List Str) :=
+  match items.getLast? with
+  | none => .error .IndexError
+  | some last => .ok (items.dropLast ++ splitAux d (some 1) 0 last)
+
 /-- `for i, item in enumerate(separated_items[start:-1])` — `snap` is what is left of the slice
-(a copy, as in Python), `items` the list being mutated.  `rec` is the recursive call
-`split_with_escape(·, delimiter, 1, escape_character, trim)`. -/
-def forScan (cfg : Cfg) (rec : Str → PyM (List Str)) (start : Nat) :
+(a copy, as in Python), `items` the list being mutated.  Fix C17-j: before an item is joined with its
+successor the last item is split once more when `maxsplit` is given (the dead guard
+`maxsplit+1 < len(separated_items)` and its recursive call are gone). -/
+def forScan (cfg : Cfg) (start : Nat) :
     List Str → Nat → List Str → PyM ForRes
   | [], _, items => .ok (.exhausted items)
   | item :: snap, i, items =>
@@ -99,20 +109,15 @@ def forScan (cfg : Cfg) (rec : Str → PyM (List Str)) (start : Nat) :
           items.set (start + i) (item.take (item.length - dbl * 2) ++ List.replicate dbl cfg.e)
         else items
       if cnt % 2 = 1 then
-        match items1[start + i + 1]? with
-        | none => .error .IndexError
-        | some nxt =>
-          let items2 := (items1.eraseIdx (start + i + 1)).set (start + i) (item.dropLast ++ cfg.d ++ nxt)
-          match items2.getLast? with
+        match (if cfg.m != 0 then resplit cfg.d items1 else .ok items1) with
+        | .error e => .error e
+        | .ok items1' =>
+          match items1'[start + i + 1]? with
           | none => .error .IndexError
-          | some last =>
-            if cfg.m != 0 && decide (cfg.m + 1 < items2.length) && isInfix cfg.d last then
-              match rec last with
-              | .error e => .error e
-              | .ok more => .ok (.broke (items2.dropLast ++ more) (start + i))
-            else .ok (.broke items2 (start + i))
-      else forScan cfg rec start snap (i + 1) items1
-    else forScan cfg rec start snap (i + 1) items
+          | some nxt =>
+            .ok (.broke ((items1'.eraseIdx (start + i + 1)).set (start + i) (item.dropLast ++ cfg.d ++ nxt)) (start + i))
+      else forScan cfg start snap (i + 1) items1
+    else forScan cfg start snap (i + 1) items
 
 /-- the `else` branch of the `for`: trim the last item (fix C17-a: its own run) -/
 def finalTrim (cfg : Cfg) (items : List Str) : PyM (List Str) :=
@@ -129,30 +134,28 @@ def finalTrim (cfg : Cfg) (items : List Str) : PyM (List Str) :=
   else .ok items
 
 /-- `while True:` with fuel -/
-def whileLoop (cfg : Cfg) (rec : Str → PyM (List Str)) : Nat → List Str → Nat → PyM (List Str)
+def whileLoop (cfg : Cfg) : Nat → List Str → Nat → PyM (List Str)
   | 0, _, _ => .error .OutOfFuel
   | fuel + 1, items, start =>
-    match forScan cfg rec start (items.dropLast.drop start) 0 items with
+    match forScan cfg start (items.dropLast.drop start) 0 items with
     | .error e => .error e
-    | .ok (.broke items' start') => whileLoop cfg rec fuel items' start'
+    | .ok (.broke items' start') => whileLoop cfg fuel items' start'
     | .ok (.exhausted items') => finalTrim cfg items'
 
-/-- `split_with_escape`; `depth` bounds the recursion, `fuel` the `while` loop -/
-def splitWithEscapeD : Nat → Nat → Str → Str → Nat → Option Char → Bool → PyM (List Str)
-  | 0, _, _, _, _, _, _ => .error .OutOfFuel
-  | depth + 1, fuel, s, d, m, esc, tr =>
-    if d = [] then .error .ValueError else
-    let items := splitMax d m s
-    match esc with
-    | none => .ok items
-    | some e =>
-      whileLoop ⟨e, d, tr, m⟩ (fun s' => splitWithEscapeD depth fuel s' d 1 (some e) tr) fuel items 0
+/-- `split_with_escape`; `fuel` bounds the `while` loop (the function no longer calls itself: fix C17-j) -/
+def splitWithEscapeD (fuel : Nat) (s d : Str) (m : Nat) (esc : Option Char) (tr : Bool) : PyM (List Str) :=
+  if d = [] then .error .ValueError else
+  let items := splitMax d m s
+  match esc with
+  | none => .ok items
+  | some e => whileLoop ⟨e, d, tr, m⟩ fuel items 0
 
-/-- the fuel the driver and the theorems use: one `while` round per piece, plus one -/
+/-- the fuel the driver and the theorems use: one `while` round per character (every round but the last
+joins two items over one delimiter of the text), plus two -/
 def fuelFor (s : Str) : Nat := s.length + 2
 
 def splitWithEscape (s d : Str) (m : Nat) (esc : Option Char) (tr : Bool) : PyM (List Str) :=
-  splitWithEscapeD 2 (fuelFor s) s d m esc tr
+  splitWithEscapeD (fuelFor s) s d m esc tr
 
 /-! ### the one-pass specification -/
 
@@ -196,8 +199,10 @@ def refAux (e : Char) (d : Str) (tr : Bool) : Option Nat → Nat → Str → Str
       else halveIf tr e cur :: refAux e d tr (decLim lim) (d.length - 1) [] s
     else refAux e d tr lim 0 (cur ++ [c]) s
 
-/-- **The class of the open finding C17-j**, decided by the same scan: while real cuts are limited
-and still allowed, a delimiter is met that is escaped (the current item ends with an odd run). -/
+/-- **The class of the fixed finding C17-j**, decided by the same scan: while real cuts are limited
+and still allowed, a delimiter is met that is escaped (the current item ends with an odd run).  Before the
+fix the code differed from the reference exactly here; outside it the reference is still the walk `specG`
+over the pieces of `str.split(delimiter, maxsplit)`. -/
 def escWithin (e : Char) (d : Str) : Option Nat → Nat → Str → Str → Bool
   | _, _, _, [] => false
   | lim, skip + 1, cur, _ :: s => escWithin e d lim skip cur s
